@@ -1,6 +1,7 @@
 import LoraVerif.Model.Mac
 import LoraVerif.Lemmas.ExceptLemmas
 import LoraVerif.Props.C11Codec
+import LoraVerif.Lemmas.Ghost
 /-!
 # C11 — OTAA join establishes exactly the session the JoinAccept defines
 
@@ -18,6 +19,10 @@ checked against the LoRaWAN §6.2 formulas by the C11 correspondence oracle):
 * `no_accept`: without such a frame the attempt ends in `NoJoinAccept` and the device stays unjoined;
 * `join_nonce`: the DevNonce of the request is the low 16 bits of the draw and is what the session
   derivation will use.
+* HISTORIES: `history_join` — at every join attempt of every history (`Model/History.lean`: after
+  failed attempts, from a joined state, with radio faults cutting the procedure short) the state after
+  is exactly the session the authentic JoinAccept heard in a served window defines, or the device is
+  not joined and its configuration untouched (`JoinStep`, `step_join`).
 -/
 open Model Gen.Region
 
@@ -136,6 +141,102 @@ def ja : RxJoinAccept := { micOk := true, devAddr := 0x01020304, dlSettings := 0
 example : ((otaaAccept mOtaa ja).toOption.map (fun m => (m.cfg.rx1Delay, m.cfg.rx1DrOffset, m.cfg.rx2DataRate))) = some (5000, 2, some 3) := by decide
 example : ((otaaAccept mOtaa { ja with dlSettings := 0x7F }).toOption.map (fun m => (m.cfg.rx1DrOffset, m.cfg.rx2DataRate))) = some (0, none) := by decide
 
+
+/-! ## histories -/
+
+/-- the authentic JoinAccept the reference finds in the windows a join attempt served (`joinRes`) was
+really heard there -/
+theorem joinRes_heard {fault : Option Nat} {rx1 rx2 : Option (RxView × Int)} {j : RxJoinAccept}
+    (h : joinRes fault rx1 rx2 = some j) :
+    j.micOk = true ∧ ((∃ snr, rx1 = some (.joinAccept j, snr)) ∨ (∃ snr, rx2 = some (.joinAccept j, snr))) := by
+  have hacc : ∀ (f : Option (RxView × Int)), joinAcc f = some j → j.micOk = true ∧ ∃ snr, f = some (.joinAccept j, snr) := by
+    intro f hf
+    unfold joinAcc at hf
+    split at hf
+    · rename_i j' snr
+      split at hf
+      · rename_i hm; cases hf; exact ⟨hm, snr, rfl⟩
+      · cases hf
+    · cases hf
+  have hsj : specJoin rx1 rx2 = some j → j.micOk = true ∧ ((∃ snr, rx1 = some (.joinAccept j, snr)) ∨ (∃ snr, rx2 = some (.joinAccept j, snr))) := by
+    intro hs
+    unfold specJoin at hs
+    cases h1 : joinAcc rx1 with
+    | some j1 => rw [h1] at hs; cases hs; exact ⟨(hacc rx1 h1).1, Or.inl (hacc rx1 h1).2⟩
+    | none => rw [h1] at hs; exact ⟨(hacc rx2 hs).1, Or.inr (hacc rx2 hs).2⟩
+  unfold joinRes at h
+  cases fault with
+  | none => exact hsj h
+  | some k =>
+    simp only at h
+    unfold specJoinFaulted at h
+    match k with
+    | 0 => cases h
+    | 1 => exact ⟨(hacc rx1 h).1, Or.inl (hacc rx1 h).2⟩
+    | k + 2 => exact hsj h
+
+/-- **what a join attempt leaves behind**, `m` the state before it (joined, joining or fresh):
+a JoinRequest with a fresh DevNonce goes out; if an authentic JoinAccept `j` was heard in a window the
+procedure served (RX1, else RX2), the device holds EXACTLY the session `j` defines — `Session.new` of
+the assigned address and the keys derived for this DevNonce, counters restarted, nothing pending —
+with `j`'s RX delay, DLSettings and CFList applied when the region defines them (`accept_spec`) and
+every other parameter as before; otherwise it reports `NoJoinAccept`, is NOT joined (the previous
+session, if any, is gone: `join_otaa` dropped it) and its configuration is untouched. -/
+def JoinStep {σ} (g : Rng σ) (m : MacState) (rs : σ) (fault : Option Nat) (rx1 rx2 : Option (RxView × Int))
+    (m' : MacState) (out : Out) : Prop :=
+  ∃ jo m1 rs1, macJoinOtaa g m rs = .ok (jo, m1, rs1) ∧ m1.st = .otaa { devNonce := jo.devNonce } ∧ m1.cfg = m.cfg ∧
+    match joinRes fault rx1 rx2 with
+    | some j =>
+      j.micOk = true ∧ ((∃ snr, rx1 = some (.joinAccept j, snr)) ∨ (∃ snr, rx2 = some (.joinAccept j, snr))) ∧
+      otaaAccept m1 j = .ok m' ∧ m'.st = .joined (Session.new j.devAddr j.nwkKey j.appKey) ∧
+      out = .join jo (if fault.isSome then none else some .joinSuccess)
+    | none => m' = m1 ∧ out = .join jo (if fault.isSome then none else some .noJoinAccept)
+
+theorem step_join {σ} (g : Rng σ) (m m' : MacState) (rs rs' : σ) (fault : Option Nat) (rx1 rx2 : Option (RxView × Int))
+    (mp1 mp2 : Nat) (out : Out) (h : step g (m, rs) (.joinOtaa fault rx1 rx2 mp1 mp2) = .ok ((m', rs'), out)) :
+    JoinStep g m rs fault rx1 rx2 m' out := by
+  obtain ⟨jo, m1, o, hj, hst1, hcfg, ht⟩ := step_joinOtaa_inv g m m' rs rs' fault rx1 rx2 mp1 mp2 out h
+  obtain ⟨hn, hst1'⟩ := join_nonce g m rs jo m1 rs' hj
+  refine ⟨jo, m1, rs', hj, hst1', hcfg, ?_⟩
+  cases hr : joinRes fault rx1 rx2 with
+  | none => simp only [hr] at ht ⊢; exact ht
+  | some j =>
+    simp only [hr] at ht ⊢
+    obtain ⟨hm, hh⟩ := joinRes_heard hr
+    exact ⟨hm, hh, ht.1, (accept_spec m1 j m' ht.1).1, ht.2⟩
+
+/-- **C11 over every history**: at EVERY join attempt of every history — after any number of failed
+attempts, from a joined state, after radio faults — `JoinStep` holds between the state before and
+the state after. -/
+theorem history_join {σ} (g : Rng σ) (m : MacState) (rs : σ) (evs : List Ev) (ms' : MacState × σ) (outs : List Out)
+    (h : run g (m, rs) evs = .ok (ms', outs)) (i : Nat) (fault : Option Nat) (rx1 rx2 : Option (RxView × Int)) (mp1 mp2 : Nat)
+    (out : Out) (hi : (evs.zip outs)[i]? = some (.joinOtaa fault rx1 rx2 mp1 mp2, out)) :
+    ∃ mi rsi mi' rsi', Chain g (m, rs) ((evs.zip outs).take i) (mi, rsi) ∧
+      Chain g (mi', rsi') ((evs.zip outs).drop (i + 1)) ms' ∧ JoinStep g mi rsi fault rx1 rx2 mi' out := by
+  have hc := run_chain g (m, rs) ms' evs outs h
+  obtain ⟨⟨mi, rsi⟩, ⟨mi', rsi'⟩, h1, hstep, h2⟩ := chain_at g (m, rs) ms' (evs.zip outs) i _ out hc hi
+  exact ⟨mi, rsi, mi', rsi', h1, h2, step_join g mi mi' rsi rsi' fault rx1 rx2 mp1 mp2 out hstep⟩
+
+/-! non-vacuity: a failed attempt, then a join accepted in RX2, then a re-join from the joined state
+that fails: the device is not joined any more -/
+def lcg : Rng Nat := fun x => ((x * 1103515245 + 12345) / 65536, x * 1103515245 + 12345)
+def jaOk : Option (RxView × Int) := some (.joinAccept ja, 3)
+def jaBad : Option (RxView × Int) := some (.joinAccept { ja with micOk := false }, 3)
+def demoHistory : List Ev :=
+  [ .joinOtaa none jaBad none 250 250, .joinOtaa none none jaOk 250 250, .uplink [1] 1 false none none none 51 51,
+    .joinOtaa (some 1) none jaOk 250 250, .uplink [2] 1 false none none none 51 51 ]
+
+def respOf : Out → String
+  | .join _ (some .joinSuccess) => "JoinSuccess"
+  | .join _ (some .noJoinAccept) => "NoJoinAccept"
+  | .join _ none => "radio error"
+  | .up _ _ _ => "uplink"
+  | .notJoined => "not joined"
+  | _ => ""
+
+example : (run lcg (MacState.init (RegionState.init .EU868) 14 0, 1) demoHistory).toOption.map (fun r => r.2.map respOf) =
+    some ["NoJoinAccept", "JoinSuccess", "uplink", "radio error", "not joined"] := by decide +kernel
+
 end C11
 
 #print axioms C11.accept_spec
@@ -147,3 +248,5 @@ end C11
 #print axioms C11.join_accept_decode
 #print axioms C11.join_accept_fields
 #print axioms C11.session_keys
+#print axioms C11.step_join
+#print axioms C11.history_join
